@@ -3,12 +3,13 @@
 # scratch worktree of the repository (mutant trials; never used for evidence).
 # The machinery is snapshotted first, so edits in /verif during the trial do
 # not mix versions. Build directory and snapshot live at fixed paths (the Go
-# build cache keys on file paths); trials are serialised by a lock.
+# build cache keys on file paths); trials are serialised by a lock per lane
+# (TRIAL_LANE=<suffix> selects another build directory, for parallel trials).
 WT=$1; PATCH=$2; PROP=$3; SECS=${4:-20}
 TAG=$(basename $WT)_$(basename $PATCH .patch)_$PROP
 SRC=${VERIF_HOME:-/verif}
-B=/tmp/vb_trial
-exec 8>/tmp/vb_trial.lock; flock 8
+B=/tmp/vb_trial${TRIAL_LANE:-}
+exec 8>$B.lock; flock 8
 mkdir -p $B/verif
 rsync -a --delete --exclude .build --exclude replays --exclude .git --exclude evidence --exclude seeded --exclude findings $SRC/ $B/verif/
 rm -rf $B/replays $B/evidence $B/out
